@@ -730,13 +730,35 @@ def make_guards(idx, fi):
     return holder['g']
 
 
-def classify_leaf(p):
+def resolve_record(fi, e, depth=0):
+    """A fresh copy (dict(C) / C.copy() / {**C}) of a module- or class-level constant bound once to a dict literal is read
+    as that literal.  (Handing out the constant itself, without a copy, is C11's business and is not resolved here.)"""
+    src = X.copy_source(e)
+    if src is None or depth > 2:
+        return e
+    if isinstance(src, ast.Dict):
+        return src
+    v = None
+    if isinstance(src, ast.Name):
+        v = module_value(fi, src)
+    elif isinstance(src, ast.Attribute) and isinstance(src.value, ast.Name) and src.value.id in ('self', 'cls') and fi.cls is not None:
+        v = fi.cls.attrs.get(src.attr)
+    if isinstance(v, ast.Dict):
+        return v
+    if v is not None:
+        r2 = resolve_record(fi, v, depth + 1)
+        if isinstance(r2, ast.Dict):
+            return r2
+    return e
+
+
+def classify_leaf(p, fi=None):
     leaf = p.leaf
     if leaf.kind == 'raise':
         return ('raise', nf.exc_class_name(leaf.expr) if leaf.expr is not None else 're-raise')
     if leaf.kind == 'fall':
         return ('returns None',)
-    e = leaf.expr
+    e = resolve_record(fi, leaf.expr) if fi is not None else leaf.expr
     if isinstance(e, ast.Dict):
         if X.record_is(e, WRONG_REC):
             return ('zero record',)
@@ -753,7 +775,7 @@ def classify_leaf(p):
             lens = [c for c in ast.walk(msg) if isinstance(c, ast.Call) and isinstance(c.func, ast.Name) and c.func.id == 'len']
             mk = 'word-count message' if words else ('character-count message' if lens else 'message %s' % short(msg, 40))
         return ('refuse', mk, pk or short(pol, 40))
-    return ('returns %s' % short(e, 80),)
+    return ('unknown', 'returns %s' % short(e, 80))
 
 
 def spec_outcome(w):
@@ -815,7 +837,7 @@ def d34_decision(ctx, idx):
         fi = idx.func(SG + '.check_response')
         paths = nf.decision_paths(fi.node.body)
         guards = make_guards(idx, fi)
-        compiled = [([guards.compile(g) for g in p.guards], classify_leaf(p), p) for p in paths]
+        compiled = [([guards.compile(g) for g in p.guards], classify_leaf(p, fi), p) for p in paths]
         stats = {}
         for w in X.worlds(DOMAIN):
             if w['equal'] and w['e_match'] != w['s_match']:
@@ -825,6 +847,8 @@ def d34_decision(ctx, idx):
             if len(sel) != 1:
                 raise AnalysisError('decision paths are not exclusive/exhaustive (%d paths for one case)' % len(sel))
             got = sel[0][1]
+            if got[0] == 'unknown':
+                raise AnalysisError('leaf of the decision tree not recognised: %s' % got[1])
             st = stats.setdefault(group, {'n': 0, 'bad': []})
             st['n'] += 1
             if got != want:
@@ -871,6 +895,19 @@ def d4_words(ctx, idx):
             raise AnalysisError('check_response: no word count (`.split`) of the submission found')
 
 
+class PolicyModel(Model):
+    """Module-level names bound once to a literal evaluate to (a copy of) that literal."""
+
+    def global_name(self, name, module):
+        vals = module.assigns.get(name, [])
+        if len(vals) == 1:
+            try:
+                return ast.literal_eval(vals[0])
+            except Exception:
+                return NotImplemented
+        return NotImplemented
+
+
 def d4_policy(ctx, idx):
     r = ctx.rule('D4.POLICY', "construct_message over ('err','msg',None) x debug: 'err' raises InvalidInput(msg); 'msg' or debug "
                  "returns the zero record carrying the message; None returns the silent zero record", floor=3)
@@ -887,7 +924,7 @@ def d4_policy(ctx, idx):
                 MSG = Sym('MSG')
                 obj = Obj(SG, fields={'config': {'debug': debug}})
                 try:
-                    got = ('ret', Interp(idx, Model(), max_steps=2000).call_function(fi, [MSG, policy], self_obj=obj))
+                    got = ('ret', Interp(idx, PolicyModel(), max_steps=2000).call_function(fi, [MSG, policy], self_obj=obj))
                 except Raised as e:
                     got = ('raise', e.cls.split('.')[-1], e.eargs)
                 except Budget:
@@ -1064,6 +1101,10 @@ MUTANTS = [
 ]
 
 BENIGN = [
+    Benign('zero-record-copied-from-constant', SGF, "            if student != expect:\n                return {'ok': False, 'grade_decimal': 0, 'msg': ''}",
+           "            if student != expect:\n                return dict({'ok': False, 'grade_decimal': 0, 'msg': ''})"),
+    Benign('too-short-message-by-concatenation', SGF, "                msg = ('Your response is too short ({words}/{min} words)'\n                       ).format(words=words, min=self.config['min_words'])",
+           "                msg = 'Your response is too short ' + f\"({words}/{self.config['min_words']} words)\""),
     Benign('whitespace-mapping-as-loop', SGF, _WS, "        for token in ('\\t', '\\r\\n', '\\n\\r', '\\r', '\\n'):\n            cleaned = cleaned.replace(token, ' ')\n"),
     Benign('collapse-with-compiled-pattern', SGF, "            cleaned = re.sub(r' +', ' ', cleaned)\n", "            spaces = re.compile(r' +')\n            cleaned = spaces.sub(' ', cleaned)\n"),
     Benign('comparison-as-elif', SGF, "        if not accept_any:\n            # Check for a match to expect\n            if student != expect:\n                return {'ok': False, 'grade_decimal': 0, 'msg': ''}\n        else:",
